@@ -20,6 +20,7 @@ func extraAgents(s *Sim) []Agent {
 	add("liquidator", &LiquidatorAgent{baseAgent: newBase(s, "liquidator")})
 	add("commit", &CommitAgent{newBase(s, "commit")})
 	add("oraclechaos", &OracleChaosAgent{newBase(s, "oraclechaos")})
+	add("govchaos", &GovChaosAgent{baseAgent: newBase(s, "govchaos")})
 	return out
 }
 
